@@ -134,8 +134,9 @@ func cmpAny(f func(x, y *V) bool) func(*Evaluator, *Ty, []Arg) *V {
 	return func(_ *Evaluator, _ *Ty, a []Arg) *V { return VBool(f(a[0].V, a[1].V)) }
 }
 
-func numEQ(x, y float64) bool { return math.Abs(x-y) < Eps }
-func numNE(x, y float64) bool { return math.Abs(x-y) >= Eps }
+// documented tolerance comparison; equal infinities are equal, NaN equals nothing
+func numEQ(x, y float64) bool { return x == y || math.Abs(x-y) < Eps }
+func numNE(x, y float64) bool { return !numEQ(x, y) }
 
 // RefMod is the documented %: remainder of the operands truncated toward
 // zero; undefined (MOD0) when the truncated divisor is 0; no meaning outside
